@@ -623,8 +623,9 @@ impl<'a> Compiler<'a> {
                 self.current_index.pop_subindex();
             }
             CardBody::Repeat(rep) => {
+                // `n` is child 0 of the repeat card
                 self.current_index.push_subindex(0);
-                self.compile_subexpr(slice::from_ref(&rep.n))?;
+                self.process_card(&rep.n)?;
                 self.current_index.pop_subindex();
                 let i = &rep.i;
                 let repeat = &rep.body;
